@@ -1,0 +1,13 @@
+//go:build verif
+
+// Contracts for the deductive verifier under /verif (comment-only file: it
+// adds no code; compiled only with -tags verif).
+package pipeline
+
+// C03 / C17: after a restart no pipeline is left in the stored status "running":
+// a pipeline that was running when the process died is found again as one to be
+// resumed (system-stopped).
+//verif:func (*Service).Init(s, ctx) (err)
+//verif:assume s.instanceNames != nil because "NewService allocates the name index"
+//verif:call[running-becomes-system-stopped] (*Instance).SetStatus requires result_of("(*Instance).GetStatus", 0) == StatusRunning && arg1 == StatusSystemStopped && since("(*Instance).SetStatus", "(*Instance).GetStatus") == 0
+//verif:call[every-instance-checked] (*Service).updateNewStatusMetrics requires since("(*Service).updateNewStatusMetrics", "(*Instance).GetStatus") == 0 && (result_of("(*Instance).GetStatus", 0) == StatusRunning ==> since("(*Instance).GetStatus", "(*Instance).SetStatus") == 0 && called("(*Instance).SetStatus"))
